@@ -4,3 +4,6 @@ package main
 func runConstructorTable(c *Ctx) {}
 func runStoreClearTwin(c *Ctx)  {}
 func runStoreReweight(c *Ctx)   {}
+
+func runProtoMessages(c *Ctx)         {}
+func runProtoArbitraryWeights(c *Ctx) {}
